@@ -745,3 +745,49 @@ Proof.
     congruence.
   - intros s Hids. apply Hs; auto. symmetry. apply eval_unfold; auto. apply Hinv.
 Qed.
+
+(** ** Boolean checkers for the invariants (used for concrete witnesses) *)
+Fixpoint wf_from (i : nat) (ns : list node) : bool :=
+  match ns with
+  | [] => true
+  | n :: r => children_ltb i n && wf_from (S i) r
+  end.
+
+Lemma wf_from_sound : forall ns i, wf_from i ns = true ->
+  forall k n, nth_error ns k = Some n -> forall c, In c (children n) -> c < i + k.
+Proof.
+  induction ns as [|m ns IH]; intros i H k n Hk c Hc; [destruct k; discriminate|].
+  simpl in H. apply andb_true_iff in H. destruct H as [H1 H2].
+  destruct k as [|k]; simpl in Hk.
+  - injection Hk as <-. unfold children_ltb in H1. rewrite forallb_forall in H1.
+    specialize (H1 c Hc). apply Nat.ltb_lt in H1. lia.
+  - specialize (IH (S i) H2 k n Hk c Hc). lia.
+Qed.
+
+Definition inv_b (t : tree) : bool :=
+  wf_from 0 (nodes t)
+  && match nodes t with NTrue :: NNegated 0 :: _ => true | _ => false end
+  && forallb (fun p => (snd p <? size t) && children_ltb (size t) (fst p)) (ids t).
+
+Lemma inv_b_sound : forall t, inv_b t = true -> inv t.
+Proof.
+  intros t H. unfold inv_b in H. apply andb_true_iff in H. destruct H as [H H3].
+  apply andb_true_iff in H. destruct H as [H1 H2].
+  split; [|split].
+  - intros k n Hk c Hc. apply (wf_from_sound _ 0 H1 k n Hk c Hc).
+  - destruct (nodes t) as [|[] [|[] l]] eqn:E; try discriminate.
+    destruct a; try discriminate. unfold base. rewrite E. auto.
+  - intros n i Hin. rewrite forallb_forall in H3. specialize (H3 _ Hin). simpl in H3.
+    apply andb_true_iff in H3. destruct H3 as [A B]. apply Nat.ltb_lt in A. split; auto.
+    intros c Hc. unfold children_ltb in B. rewrite forallb_forall in B. apply Nat.ltb_lt. auto.
+Qed.
+
+Definition ids_sound_b (t : tree) (s : nat -> bool) : bool :=
+  forallb (fun p => Bool.eqb (eval_node s (eval t s) (fst p)) (eval t s (snd p))) (ids t).
+
+Lemma ids_sound_b_sound : forall t s, ids_sound_b t s = true -> ids_sound t s.
+Proof.
+  intros t s H n i Hin. unfold ids_sound_b in H. rewrite forallb_forall in H.
+  specialize (H _ Hin). simpl in H. apply eqb_prop in H. auto.
+Qed.
+
